@@ -418,8 +418,9 @@ def concretize_index(a):
         return np.array(flat, dtype=np.intp).reshape(a.shape)
     if all(isinstance(x, (SB, bool, np.bool_)) for x in flat):
         return np.array([bool(x) for x in flat], dtype=bool).reshape(a.shape)
-    if all(isinstance(x, float) and float(x).is_integer() for x in flat) and False:
-        pass
+    if all(isinstance(x, (int, np.integer, SR)) and not isinstance(x, (bool, np.bool_)) for x in flat):
+        # integer-valued symbolic terms (e.g. np.where(cond, i - 1, i)): fork to concrete indices
+        return np.array([int(x) for x in flat], dtype=np.intp).reshape(a.shape)
     raise SymUnsupported('cannot use this symbolic array as an index')
 
 
